@@ -322,8 +322,17 @@ def child_run(case, lib, eng=None):
     eng.setup(script)
     n_init = len(common.draws_get(lib))
     it = 0
+    import ctypes
+    size = script.system.state_size()
+    buf = (ctypes.c_double * size)()
     while it < case["max_iter"] and eng.iterate():
         it += 1
+        if option != "gillespie":
+            # explosive networks: stop before the amounts leave the range in which doubles are exact integers /
+            # the Poisson sampler becomes very slow (the run so far is still checked step by step)
+            lib.engineexport_get_state(buf)
+            if any(abs(v) > 1e7 or v != v for v in buf):
+                break
     draws = common.draws_get(lib)[n_init:]
     traj = eng.get_output()
     complete = bool(eng.is_complete())
